@@ -40,6 +40,8 @@ ASSUMPTIONS = [
     "h5ds_copy creates it without maxshape, the writer raises RuntimeError)",
     "values written are representable in the stored dtype (the integer-"
     "first case is the C01 finding C01-dtype-frozen)",
+    "hierarchy children keep at least one event (numpy.nanmin of nothing "
+    "raises, so does the child)",
     "files are modified only through the writer, rtdc_copy or by deleting "
     "attributes (a stored but wrong summary made elsewhere is kept)",
 ]
@@ -47,6 +49,7 @@ ASSUMPTIONS = [
 FEATS = ["deform", "area_um", "userdef1", "fl1_max", "frame"]
 MODES = ["append", "replace", "reset"]
 FINDING_MEAN = "C20-mean-nan-weight"
+FINDING_BASIN = "C20-mapped-basin-summaries"
 RTOL = 1e-9
 
 
@@ -85,7 +88,148 @@ def gen_batch(rng, n, feat, style):
     return vals
 
 
+def gen_join_case(rng):
+    """the shape of cli.join: the first file is exported by one writer (one or
+    more chunks), then ONE new writer instance appends every other input"""
+    feat = rng.choice(FEATS)
+    style = rng.choice(["some", "many", "inf", "clean"])
+    ops = [[0, 2, []]]
+    for _ in range(rng.randint(1, 3)):
+        ops.append([1, 0, gen_batch(rng, rng.randint(1, 6), feat,
+                                    rng.choice([style, "allnan"]))])
+    ops.append([0, 0, []])
+    for _ in range(rng.randint(1, 4)):
+        ops.append([1, 0, gen_batch(rng, rng.randint(1, 6), feat,
+                                    rng.choice([style, style, "allnan"]))])
+    return dict(feat=feat, ops=ops, shape="join")
+
+
+def gen_child_case(rng):
+    """parent values + history of parent filter changes, child refreshes and
+    summary queries on the hierarchy child"""
+    n = rng.choice([1, 2, 3, 5, 8, 13])
+    vals = gen_batch(rng, n, "deform", rng.choice(["some", "many", "inf",
+                                                   "clean"]))
+    hops = []
+    for _ in range(rng.randint(2, 12)):
+        r = rng.random()
+        if r < 0.3:
+            f = [int(rng.random() < 0.6) for _ in range(n)]
+            f[rng.randrange(n)] = 1     # a child without events has no summaries
+            hops.append([0, f])
+        elif r < 0.55:
+            hops.append([1, []])
+        else:
+            hops.append([2, [rng.randint(0, 2)]])
+    hops += [[1, []], [2, [0]], [2, [1]], [2, [2]]]
+    return dict(vals=vals, hops=hops)
+
+
+def run_child_impl(case, scratch):
+    """returns list of (fresh, value) per query, and oracle failures"""
+    np = _np()
+    import dclab
+    from dclab.rtdc_dataset.writer import RTDCWriter
+    from . import gen
+    path = os.path.join(scratch, "c20-child-%d-%d.rtdc" % (
+        os.getpid(), id(case) % 100000))
+    arr = dec_vals(np, case["vals"], "deform")
+    out = []
+    fails = []
+    try:
+        with RTDCWriter(path, mode="reset") as hw:
+            hw.store_metadata(gen.base_meta())
+            hw.store_feature("deform", arr)
+        with dclab.new_dataset(path) as ds:
+            ch = dclab.new_dataset(ds)
+            changed = False
+            filt = np.ones(len(arr), dtype=bool)
+            for tag, p in case["hops"]:
+                if tag == 0:
+                    filt = np.array(p, dtype=bool)
+                    ds.filter.manual[:] = filt
+                    ds.apply_filter()
+                    changed = True
+                elif tag == 1:
+                    ch.rejuvenate()
+                    changed = False
+                else:
+                    name = ("min", "max", "mean")[p[0]]
+                    with np.errstate(all="ignore"):
+                        import warnings
+                        with warnings.catch_warnings():
+                            warnings.simplefilter("ignore")
+                            val = float(getattr(ch["deform"], name)())
+                    out.append((not changed, p[0], val))
+                    if not changed:
+                        sel = arr[filt]
+                        with warnings.catch_warnings():
+                            warnings.simplefilter("ignore")
+                            ref = float({"min": np.nanmin, "max": np.nanmax,
+                                         "mean": np.nanmean}[name](sel)) \
+                                if len(sel) else np.nan
+                        ok = close_to(np, val, ref) if name == "mean" else (
+                            val == ref or (np.isnan(val) and np.isnan(ref)))
+                        if not ok:
+                            fails.append(("child-" + name, "refreshed child: "
+                                          "reported %s %r, numpy.nan%s of the "
+                                          "selected events is %r" % (
+                                              name, val, name, ref)))
+    finally:
+        if os.path.exists(path):
+            os.unlink(path)
+    return out, fails
+
+
+def compare_child(np, model, out):
+    """model: flat [fresh, enc...] per query"""
+    pos = 0
+    for fresh, which, val in out:
+        if pos >= len(model):
+            return "model has fewer queries"
+        mfresh = model[pos]
+        pos += 1
+        width = 3 if which == 2 else 2
+        enc = model[pos:pos + width]
+        pos += width
+        if bool(mfresh) != bool(fresh):
+            return "freshness flag differs"
+        if not fresh:
+            continue
+        if which < 2:
+            if enc != enc_f(np, val):
+                return "query %d: model %s, implementation %r" % (which, enc,
+                                                                  val)
+        else:
+            t, pp, q = enc
+            ok = close_to(np, pp / q / 8, val) if t == 0 and q else (
+                t != 0 and enc_f(np, val)[0] == t)
+            if not ok:
+                return "mean: model %s, implementation %r" % (enc, val)
+    if pos != len(model):
+        return "model has more queries"
+    return None
+
+
+def render_child(case):
+    vals = common.clist(["(%d, %s)" % (x, common.zlit(k))
+                         for x, k in case["vals"]])
+    hops = common.clist(["(%d, %s)" % (t, common.zlist(p))
+                         for t, p in case["hops"]])
+    return "(%s, %s)" % (vals, hops)
+
+
+def _work_child(args):
+    case, scratch = args
+    try:
+        return run_child_impl(case, scratch)
+    except BaseException as e:
+        return [], [("harness", "run_child_impl crashed: %r" % (e,))]
+
+
 def gen_case(rng, thorough=False):
+    if rng.random() < 0.15:
+        return gen_join_case(rng)
     feat = rng.choice(FEATS + ["deform", "deform"])
     ops = []
     nsess = rng.choice([1, 1, 2, 2, 3])
@@ -202,7 +346,7 @@ def run_impl(case, scratch, keep=False):
                 hw = RTDCWriter(path, mode=MODES[a])
                 if a == 2 or not os.path.getsize(path) or \
                         "setup:software version" not in hw.h5file.attrs:
-                    hw.store_metadata(gen.base_meta(with_fl=True))
+                    hw.store_metadata(gen.base_meta(with_fl=True, run_id="c20-rid"))
             elif tg == 1:
                 arr = dec_vals(np, data, feat)
                 hasnan = hasnan or any(t == 1 for t, _ in data)
@@ -259,6 +403,28 @@ def run_impl(case, scratch, keep=False):
                           check_summaries(np, ch[feat],
                                           "hierarchy child after refresh")]
                 obs = dict(n=n, rep=rep, child=crep)
+            # the same feature seen through a mapped basin
+            bm = [i for i in range(n) if i % 3 != 1]
+            ref = os.path.join(scratch, "c20-%s-ref.rtdc" % tag)
+            paths.append(ref)
+            with RTDCWriter(ref, mode="reset") as hwb:
+                hwb.store_metadata(gen.base_meta(with_fl=True,
+                                                 run_id="c20-rid"))
+                hwb.store_feature("userdef0", np.arange(len(bm), dtype=float))
+                hwb.store_basin("src", "file", "hdf5", [path],
+                                basin_map=np.array(bm, dtype=np.uint64))
+            with dclab.new_dataset(ref) as dsb:
+                fb = dsb[feat]
+                obs["basin_type"] = type(fb).__name__
+                try:
+                    brep, bref = summaries(np, fb)
+                    obs["basin"] = brep
+                    fails += [("basin-" + k, d) for k, d in check_summaries(
+                        np, fb, "mapped basin")]
+                except AttributeError as e:
+                    obs["basin"] = None
+                    fails.append(("basin-missing", "mapped basin feature "
+                                  "(%s): %s" % (type(fb).__name__, e)))
         return obs, fails, dict(nwrites=nwrites, hasnan=hasnan)
     finally:
         if hw is not None:
@@ -284,7 +450,10 @@ def compare(np, model, obs):
     if model[0] != obs["n"]:
         return "length %s vs %s" % (model[0], obs["n"])
     pos = 1
-    for label, vals in (("file", obs["rep"]), ("child", obs["child"])):
+    parts = [("file", obs["rep"]), ("child", obs["child"])]
+    if obs.get("basin") is not None:
+        parts.append(("mapped basin", obs["basin"]))
+    for label, vals in parts:
         for name in ("min", "max"):
             want = model[pos:pos + 2]
             got = enc_f(np, vals[0 if name == "min" else 1])
@@ -324,6 +493,8 @@ def classify(case, key):
     if key in ("mean",) and any(t == 1 and any(x == 1 for x, _ in data)
                                 for t, _, data in case["ops"]):
         return FINDING_MEAN
+    if key == "basin-missing":
+        return FINDING_BASIN
     return None
 
 
@@ -362,6 +533,10 @@ def run(run):
     for c, (obs, fails, info) in zip(cases, results):
         run.record_case(c, info["nwrites"] >= 2 or info["hasnan"])
         run.count("feat:" + c["feat"])
+        if c.get("shape") == "join":
+            run.count("shape:join (new writer appends the other inputs)")
+        if obs and "basin_type" in obs:
+            run.count("basin:" + obs["basin_type"])
         run.count("writes:%s" % min(info["nwrites"], 6))
         for t, a, data in c["ops"]:
             run.count(["op:open:" + MODES[a % 3], "op:write", "op:copy",
@@ -377,6 +552,25 @@ def run(run):
         d = compare(np, m, obs)
         if d:
             run.mismatch(c, d, obs)
+    # hierarchy children across refreshes
+    ccases = [gen_child_case(run.rng) for _ in range(
+        600 if run.thorough else 60)]
+    with multiprocessing.get_context("fork").Pool(min(8, common.NCPU)) as pool:
+        cres = pool.map(_work_child, [(c, run.scratch) for c in ccases],
+                        chunksize=8)
+    cmodel = common.coq_map(run.scratch, "c20h", HEADER, "child_flat",
+                            [render_child(c) for c in ccases], shard=40)
+    for c, m, (out, fails) in zip(ccases, cmodel, cres):
+        run.record_case(c, any(t == 1 for t, _ in c["hops"][:-4]))
+        run.count("child-history")
+        run.count("child-queries-fresh", sum(1 for f, _, _ in out if f))
+        run.count("child-queries-stale", sum(1 for f, _, _ in out if not f))
+        for key, desc in fails:
+            run.oracle_failure(c, desc, None)
+        run.corr_checked += 1
+        d = compare_child(np, m, out)
+        if d:
+            run.mismatch(c, d, [list(o) for o in out])
     production_runs(run)
 
 
@@ -575,6 +769,21 @@ def replay(payload):
     import shutil
     import tempfile
     case = payload.get("case")
+    if case and "hops" in case:
+        scratch = tempfile.mkdtemp(prefix="verif-C20-replay-",
+                                   dir=os.environ.get("VERIF_SCRATCH",
+                                                      "/var/tmp"))
+        try:
+            out, fails = run_child_impl(case, scratch)
+        finally:
+            shutil.rmtree(scratch, ignore_errors=True)
+        print("case:", json.dumps(case)[:3000])
+        print("queries (fresh, which, value):", out)
+        for key, desc in fails:
+            print("FAILS:", desc)
+        if not fails:
+            print("passes on the current tree")
+        return 1 if fails else 0
     if not case or "ops" not in case:
         print("replay: nothing executable in this file (kind=%s): %s" % (
             payload.get("kind"), json.dumps(payload.get("broken") or
